@@ -9,9 +9,9 @@ CONSTANTS
   CTXS = {}
   PLACES = {}
   VALS = {}
-  NEST = TRUE
+  NEST = FALSE
   PAIRS = FALSE
-  INTF = {}
+  INTF = {"sep", "one", "late", "pack", "expr", "rep", "redef"}
   PATLEN = 0
   INLEN = 0
   ELEMKINDS = {}
